@@ -136,4 +136,24 @@ def ExitLast : List BCall → Bool
   | .restart :: r => r.isEmpty
   | _ :: r => ExitLast r
 
+/-! ### observation of the shared state (trace inclusion, see `CpModel/C20Admit.lean`) -/
+
+def b01 (b : Bool) : String := if b then "1" else "0"
+
+def showSt : St → String
+  | .stopped => "STOPPED" | .starting => "STARTING" | .started => "STARTED"
+  | .stopping => "STOPPING" | .exiting => "EXITING"
+
+/-- number of calls of the second thread that have returned (`total` = length of its call list) -/
+def xret (total : Nat) (c : Cfg) : Nat :=
+  total - c.todo.length - (if c.xpc == .done then 0 else 1)
+
+/-- bus state, `execv` flag, number of 'main' publications, execv performed, `block()` returned,
+    calls of the second thread returned, second thread killed the process -/
+def obsStr (total : Nat) (c : Cfg) : String :=
+  s!"S={showSt c.state};X={b01 c.execv};P={c.pubs};D={b01 c.execvDone};M={b01 (c.mpc == .done)};R={xret total c};E={b01 (c.xpc == .osExit)}"
+
+def keyStr (c : Cfg) : String :=
+  s!"{repr c.state}{b01 c.execv}{repr c.mpc}{repr c.xpc}{b01 c.inExit}{repr c.exitstate}|{c.todo.length}|{c.pubs}{b01 c.exited}{b01 c.execvDone}{b01 c.sawExiting}"
+
 end CpModel.BlockWait
